@@ -45,11 +45,13 @@ RULE = (
     "cache-editing or flushing step followed.  Distinct = distinct (document, history)."
 )
 ASSUMPTIONS = [
-    "twin = SVG.fromstring(prev.tostring()) then the in-place form of the step; documents are compared as lxml C14N 2.0 strings (attribute order, unused namespace declarations and prefixes of unused declarations are ignored)",
-    "snapshot(svg) = SVG over a deep copy of svg_root whose cache entries point at the corresponding copied elements; validated against the real tostring() at the end of every history (clause snapshot-unfaithful)",
+    "twin = SVG.fromstring(prev.tostring()) then the in-place form of the step; documents are compared as lxml C14N 2.0 strings (attribute order and unused namespace declarations are ignored)",
+    "snapshot(svg) = SVG over a deep copy of svg_root whose cache entries point at the corresponding copied elements (copy.deepcopy of an SVG with pending edits cannot be serialised: lxml copies each cached element as a detached root); validated against the real tostring() at the end of every history (clause snapshot-unfaithful)",
     "fenced: comments/PIs outside the root element (lost by tostring, so the twin legitimately differs), <use> cycles, non-xlink href, malformed numbers/viewBox",
-    "a step that raises the same exception type in the live run and in the twin is agreement; the history stops there",
-    "query values compared between live object and twin: view_box(), tolerance, checkpicosvg() (functions of the document only)",
+    "a step that raises the same exception type in the live run and in the twin is agreement (class both-raise:<type>); the history stops there",
+    "an object whose steps all returned normally must serialise: tostring() raising is reported (clause unserialisable) because the object then has no serialisation to equal",
+    "query values compared between live object and twin: view_box(), tolerance, checkpicosvg() (functions of the document only); shapes()/bounding_box() values are not compared",
+    "clauses: diverges:<operation after which the documents first differ>, receiver-changed, inplace-returns-other, raises-differently, unserialisable, query-differs, copy-returns-nonsvg, snapshot-unfaithful",
 ]
 
 # ---------------------------------------------------------------------------------- operations
@@ -391,7 +393,8 @@ def check_case(case) -> Result:
             stopped = True
             break
         if obs[1] != canon(tw[1]):
-            r.bad("diverges", f"after [{hist(k)}]: {_diff(obs[1], canon(tw[1]))}")
+            # bucketed by the operation after which the documents first differ (bounded set of names)
+            r.bad(f"diverges:{op}", f"after [{hist(k)}]: {_diff(obs[1], canon(tw[1]))}")
             r.info = {"live": obs[2], "reparsed": tw[1], "first_divergent_step": k}
             stopped = True
             break
@@ -406,7 +409,7 @@ def check_case(case) -> Result:
             real = None
         if real is not None:
             if canon(real) != canon(tw[1]):
-                r.bad("diverges", f"after [{hist(len(steps) - 1)}] (final tostring): {_diff(canon(real), canon(tw[1]))}")
+                r.bad("diverges:final-tostring", f"after [{hist(len(steps) - 1)}] (final tostring): {_diff(canon(real), canon(tw[1]))}")
                 r.info = {"live": real, "reparsed": tw[1]}
             if last_obs is not None and last_obs[0] == "ok" and canon(real) != last_obs[1]:
                 r.bad("snapshot-unfaithful", f"after [{hist(len(steps) - 1)}] tostring() differs from the serialisation of a structural copy: {_diff(canon(real), last_obs[1])}")
